@@ -224,6 +224,18 @@ def run(tier, seed_):
     with ProcessPoolExecutor(max_workers=jobs) as ex:
         for part in ex.map(_worker, [(shapes[i::jobs], i * 100003, seed_) for i in range(jobs) if shapes[i::jobs]]):
             recs += part
+    # one heavily repeated multi-edge: two nodes sharing 130 edges (counts beyond one byte), dense and sparse
+    from .c13 import BigGamma
+
+    big = xgi.Hypergraph()
+    big.add_nodes_from([0, 1, 2])
+    for _ in range(130):
+        big.add_edge([0, 1])
+    big.add_edge([1, 2])
+    bst, _ = hg.proj(big, BigGamma())
+    bobs = [e for e in observe(big, BigGamma()) if e["kind"] in ("adjacency", "laplacian", "clique_motif", "degree", "raised")]
+    for c in range(0, len(bobs), 10):
+        recs.append({"rid": f"multi130.{c}", "what": "two nodes sharing 130 edges", "st": bst, "obs": bobs[c:c + 10]})
     nent = sum(len(r["obs"]) for r in recs)
     log(f"[C12] {nent} matrices on {len(shapes)} TLC-enumerated states ({t():.0f}s)")
 
